@@ -23,7 +23,7 @@ PROPS = {
     'C14': {'units': ['pack', 'pack2', 'pack3'], 'kani': []},
     'C12': {'units': ['bits', 'chal', 'coef', 'rcair', 'prep'], 'kani': [], 'only': {'chal': r'canonical_width', 'prep': r'operand_[ac]_takes_part_in_the_witness_bus'}},
     'C15': {'units': ['shape', 'bshape', 'openin', 'hmerge'], 'kani': [], 'only': {'openin': r'per_matrix_shape_and_grouping|compute_single_reduced_opening|height_group'}},
-    'C13': {'units': ['sym', 'symx'], 'kani': []},
+    'C13': {'units': ['sym', 'symx', 'airlay'], 'kani': []},
     'C09': {'units': ['prep', 'mult', 'pread', 'pphase', 'ptrace'], 'kani': []},
     'C08': {'units': ['mmcs', 'hash', 'mbind', 'vbatch', 'vbatchx'], 'kani': []},
     'C16': {'units': ['meta', 'vrfy', 'serde16', 'manif', 'rcplug'], 'kani': []},
